@@ -93,6 +93,7 @@ theorem strftime_ok_or_unmodelled (t : Cal.Broken) (f : Bytes) :
 
 /-! ## `date` is `Strftime`; the default format -/
 
+/-- the body registered under the name `date` in the standard table -/
 theorem impl_date : lookupImpl stdFilterImpls dateName = some DateF.date := by with_unfolding_all rfl
 
 /-- **`t | date: f` is `tuesday.Strftime(f, t)`** on the broken-down UTC time, through
